@@ -6,9 +6,11 @@ import (
 
 	"github.com/glebziz/fs_db/internal/model"
 	"github.com/glebziz/fs_db/internal/model/sequence"
+	"github.com/glebziz/fs_db/internal/verifhook"
 )
 
 func (u *UseCase) Begin(ctx context.Context, isoLevel model.TxIsoLevel) (string, error) {
+	verifhook.Point("begin.start")
 	id := u.idGen.Generate()
 
 	err := u.txRepo.Store(ctx, model.Transaction{
